@@ -204,6 +204,14 @@ def gen_case(rng, ctx):
     if r < 0.836:
         return dict(kind="long", text=long_text(rng))
     text, cls, fault = fault_programs(rng)
+    if cls != "QueryParseException" and rng.random() < 0.3:
+        # the same fault after a harmless assignment to a variable the program never reads - names an implementation might
+        # be tempted to use for something of its own included
+        var = rng.choice(["x", "BUCKETS", "buckets", "CACHE", "_cache", "DATASTORE", "datastore", "namespace", "functions", "EVENTS",
+                          "PERIOD", "START", "END", "fetched", "parsed", "TRUE", "None_", "self", "q2_nop", "nop_"])
+        val = rng.choice(['1', '"s"', '[]', '{}', '{"ghost": 1, "nope": 1, "aw-watcher": 1, "": 1}', '["nope", "ghost"]', '"nope"'])
+        text = f"{var} = {val}; {text}"
+        fault = fault + "+unrelated-assignment"
     return dict(kind="fault", text=text, expect=cls, fault=fault)
 
 
